@@ -321,3 +321,7 @@ pub fn replay(_ctx: &mut Ctx, ext: &str, bytes: &[u8]) -> Result<Option<String>,
     };
     evaluate(&lines).map(|_| None).map_err(|m| Fail::new(m, "osu", file_of(&lines).into_bytes()))
 }
+
+pub fn genline_pub(t: &mut Tape, clock: &mut i64) -> String {
+    genline(t, clock)
+}
